@@ -102,6 +102,8 @@ outer:
 }
 
 func (h Middleware) isRemoteResource(resource string) bool {
+	// URI schemes are case-insensitive (RFC 3986, section 3.1)
+	resource = strings.ToLower(resource)
 	return strings.HasPrefix(resource, "//") ||
 		strings.HasPrefix(resource, "http://") ||
 		strings.HasPrefix(resource, "https://")
